@@ -363,10 +363,14 @@ def activate_domain_and_interventions(
         if not set(expression.children) - interventions:
             # the intervened variables have probability one under their own intervention
             return One()
-        return PopulationProbability(
-            population=domain,
-            distribution=Distribution.safe(set(expression.children) - interventions),
-        ).intervene(interventions)
+        distribution = Distribution.safe(set(expression.children) - interventions)
+        conditions = set(expression.parents) - interventions
+        if conditions:
+            # a condition stays a condition in the experiment (an intervened one is fixed anyway)
+            distribution = distribution.given(conditions)
+        return PopulationProbability(population=domain, distribution=distribution).intervene(
+            interventions
+        )
     if isinstance(expression, Sum):
         # TODO need full integration test to trso() function that covers this branch
         # Don't intervene the ranges because counterfactual variables shouldn't be in ranges
